@@ -616,8 +616,45 @@ def check_rp_variable(case, cc):
             cc.dev('rp66-len-helper', '%s:helper-index' % name, '%s(pad+%s,3)=%r, decoding consumes %d' % (helper, engine.short(data.hex(), 80), hl2, consumed))
 
 
+# -------------------------------------------------------------------------------------------------
+# writeBytes for the integer codes (66, 79, 73): the encoders invert the decoders on the whole range of the code
+# -------------------------------------------------------------------------------------------------
+INT_CODE_RANGE = {66: (0, 255, 'B'), 79: (-2 ** 15, 2 ** 15 - 1, 'h'), 73: (-2 ** 31, 2 ** 31 - 1, 'i')}
+
+
+def int_write_cases():
+    def one(code):
+        lo, hi, _f = INT_CODE_RANGE[code]
+        return st.builds(lambda vs: {'code': code, 'values': vs}, st.lists(st.one_of(
+            st.sampled_from([lo, lo + 1, lo + 2, hi, hi - 1, -1 if lo < 0 else 1, 0, 1, 127, 128, 255 if hi >= 255 else hi]).filter(lambda v: lo <= v <= hi),
+            st.integers(lo, hi)), min_size=1, max_size=40))
+    return st.one_of(one(66), one(79), one(73), one(73))
+
+
+def check_int_write(case, cc):
+    I = Impl.get()
+    code = case['code']
+    lo, hi, f = INT_CODE_RANGE[code]
+    cc.nt(True)
+    cc.cls('int-write-code-%d' % code)
+    cc.cls('int-write-extreme-value', lo in case['values'] or hi in case['values'])
+    for v in case['values']:
+        want = struct.pack('>' + f, v)
+        try:
+            got = I.RepCode.writeBytes(v, code)
+            back = I.RepCode.readBytes(code, got)
+        except Exception as err:  # noqa
+            cc.unexpected(err)
+            return
+        if got != want or back != v:
+            cc.dev('lis-encode-inverts-decode', 'integer-code-%d' % code, 'writeBytes(%d, %d) = %s (two\'s complement %s), read back %r' % (
+                v, code, bytes(got).hex(), want.hex(), back))
+            return
+
+
 def parts(tier):
     return [
+        HypPart('lis-integer-write', int_write_cases(), check_int_write, 600, 12000),
         EnumPart('lis-short-exhaustive', run_lis_short, check_lis_word),
         EnumPart('lis-32bit-sweep', run_lis32, check_lis_word),
         HypPart('lis-32bit-random', lis_word_batches(), check_lis_batch, 1500, 40000),
